@@ -128,6 +128,9 @@ type Unit struct {
 	// FlipChecksum: the next file is written with the other checksum setting (SET GLOBAL
 	// binlog_checksum rotates the log); only meaningful on URotate / UFileEnd
 	FlipChecksum bool `json:",omitempty"`
+	// UndefChecksum: the next file's format description announces checksum algorithm 255 ("undefined",
+	// what a server writes for events whose origin did not say) and its events carry no checksum
+	UndefChecksum bool `json:",omitempty"`
 	SID          [16]byte
 	GNO          int64                 `json:",omitempty"`
 	Prev         []refenc.SIDIntervals `json:",omitempty"`
@@ -168,6 +171,7 @@ type Layout struct {
 	H         *History
 	Files     []string
 	CRC       []bool   // per file: events carry a CRC32
+	Alg       []byte   // per file: the checksum algorithm byte its format description announces (0, 1 or 255)
 	FDE       [][]byte // per file, as stored at offset 4
 	Events    []Ev
 	UnitStart []Pos // coordinates of each unit's first event
@@ -190,8 +194,11 @@ func algOf(crc bool) byte {
 func (h *History) FDEBytes(logPos uint32) []byte { return h.FDEBytesCRC(logPos, h.Cfg.Checksum) }
 
 // FDEBytesCRC builds a format description event announcing the given checksum setting.
-func (h *History) FDEBytesCRC(logPos uint32, crc bool) []byte {
-	body := refenc.FDEBody(4, h.Cfg.ServerVersion, h.Cfg.CreateTS, 19, h.sizes(), algOf(crc))
+func (h *History) FDEBytesCRC(logPos uint32, crc bool) []byte { return h.FDEBytesAlg(logPos, algOf(crc)) }
+
+// FDEBytesAlg builds a format description event announcing the given checksum algorithm byte.
+func (h *History) FDEBytesAlg(logPos uint32, alg byte) []byte {
+	body := refenc.FDEBody(4, h.Cfg.ServerVersion, h.Cfg.CreateTS, 19, h.sizes(), alg)
 	fl := uint16(0)
 	if h.Cfg.HdrFlags&1 != 0 {
 		fl = 0x1 // LOG_EVENT_BINLOG_IN_USE_F: the file is the master's active one
@@ -357,7 +364,7 @@ func (h *History) hdrFlags(typ byte, idx int) uint16 {
 
 // Lay lays the history out into events with exact offsets.
 func (h *History) Lay() (*Layout, error) {
-	l := &Layout{H: h, Files: []string{h.FirstFile}, CRC: []bool{h.Cfg.Checksum}}
+	l := &Layout{H: h, Files: []string{h.FirstFile}, CRC: []bool{h.Cfg.Checksum}, Alg: []byte{algOf(h.Cfg.Checksum)}}
 	if h.Base < h.MinBase() {
 		return nil, fmt.Errorf("base %d below %d", h.Base, h.MinBase())
 	}
@@ -422,10 +429,15 @@ func (h *History) Lay() (*Layout, error) {
 		if u.FlipChecksum {
 			crc = !crc
 		}
+		alg := algOf(crc)
+		if u.UndefChecksum {
+			crc, alg = false, refenc.ChecksumUndef
+		}
 		l.Files = append(l.Files, u.NextFile)
 		l.CRC = append(l.CRC, crc)
+		l.Alg = append(l.Alg, alg)
 		file++
-		l.FDE = append(l.FDE, h.FDEBytesCRC(uint32(4+h.FDESize()), crc))
+		l.FDE = append(l.FDE, h.FDEBytesAlg(uint32(4+h.FDESize()), alg))
 		off = 4 + h.FDESize()
 	}
 	for ui := range h.Units {
@@ -551,6 +563,9 @@ func (l *Layout) ServedFiles(fileName string, off int64) (payloads [][]byte, evI
 	if !ok {
 		return
 	}
+	if fileName == "" {
+		fileName = l.Files[0]
+	}
 	cur := l.FileIndex(fileName)
 	artificial := 0
 	for i := range payloads {
@@ -571,6 +586,9 @@ func (l *Layout) ServedFiles(fileName string, off int64) (payloads [][]byte, evI
 // master sends for a dump request at (file, off), with, for each, the index of
 // the laid-out event it carries (-1 for artificial rotate / format description).
 func (l *Layout) Served(fileName string, off int64) (payloads [][]byte, evIdx []int, ok bool) {
+	if fileName == "" {
+		fileName = l.Files[0] // an empty name asks for the master's first binlog file
+	}
 	file := l.FileIndex(fileName)
 	if file < 0 {
 		return nil, nil, false
@@ -588,7 +606,7 @@ func (l *Layout) Served(fileName string, off int64) (payloads [][]byte, evIdx []
 	evIdx = append(evIdx, -1)
 	fde := l.FDE[file]
 	if off > 4 {
-		fde = h.FDEBytesCRC(0, l.CRC[file])
+		fde = h.FDEBytesAlg(0, l.Alg[file])
 	}
 	payloads = append(payloads, fde)
 	evIdx = append(evIdx, -1)
